@@ -308,14 +308,21 @@ def drive(mod, tier, seed, nproc=None):
     known_hits = {}
     seen_keys = set()
     weakened = {}
+    tried = {}
+    done_keys = set()
     for cex in cexs:
         key = cex.get('key') or ('%s:%s' % (cex.get('job'), cex.get('obligation')))
+        # at most 4 replays per finding key, none once the key is settled (reproduced / known)
+        if key in done_keys or tried.get(key, 0) >= 4:
+            continue
+        tried[key] = tried.get(key, 0) + 1
         try:
             ok, detail = mod.replay(cex)
         except Exception as e:  # noqa
             ok, detail = None, 'replay raised %s: %s' % (type(e).__name__, e)
         cex['replay_detail'] = detail
         if ok is True:
+            done_keys.add(key)
             k = match_known(prop, key, known)
             if k is not None:
                 known_hits.setdefault(key, (k, detail))
@@ -332,9 +339,9 @@ def drive(mod, tier, seed, nproc=None):
                 weakened.setdefault(key, detail)
             else:
                 harness_errors.append('counterexample did not reproduce on the real library '
-                                      '(encoding/stub suspect): %s [%s]' % (key, detail))
+                                      '(encoding/stub suspect): %s [%s] %s' % (key, detail, str(cex.get('exc', ''))[-600:]))
         else:
-            harness_errors.append('replay inconclusive: %s [%s]' % (key, detail))
+            harness_errors.append('replay inconclusive: %s [%s] %s' % (key, detail, str(cex.get('exc', ''))[-600:]))
 
     for key, detail in sorted(weakened.items()):
         print('NOTE: stronger sub-claim refuted by the solver but the property holds on replay: %s [%s]' % (key, str(detail)[:200]),
